@@ -43,6 +43,11 @@ func RunCommand(ctx context.Context, opts *RunCommandOptions) error {
 	// Format POSIX options into a slice that mvdan/sh understands
 	var params []string
 	for _, opt := range opts.PosixOpts {
+		// An empty option would turn into a bare "-o", which makes the
+		// interpreter list its options (to an output that may be nil)
+		if opt == "" {
+			continue
+		}
 		if len(opt) == 1 {
 			params = append(params, fmt.Sprintf("-%s", opt))
 		} else {
